@@ -525,6 +525,11 @@ def rnd_case(rng, max_m=12, max_t=8, max_p=12, claims=False):
         m = rng.choice(members)
         m[1].append(rng.choice(m[1]))
         case["dup"] = True
+    if rng.random() < 0.15:
+        # some of the topics are broker-internal ones (the real ClusterMetadata is used for these cases)
+        known = [t for t, n in enumerate(ppt) if n is not None and n > 0]
+        if known:
+            case["internal"] = sorted(rng.sample(known, rng.randint(1, len(known))))
     if claims:
         case["claims"] = rnd_claims(rng, case)
     return case
